@@ -101,6 +101,13 @@ def run(chk):
         if ncal >= 2 and rng.random() < 0.4:
             deleted = rng.randrange(ncal - 1)
             L.append('cal delete_calibration 0 %d' % deleted)
+        if deleted is not None and rng.random() < 0.6:
+            # add again under the name of a calibration that lives above the hole: it must replace that one in place
+            last = ncal - 1
+            scx = cal_scenario(rng, 0, ncal, create=False)
+            L += scx.lines
+            L.append('cal add_calibration 0 %s %d' % (h(names[last]), ncal))
+            scs[last] = scx
         fp = rng.choice([7, 7, 1, 3, 6, 9, 12, 15, MAXP])
         dp = rng.choice([6, 6, 1, 2, 3, 9, 12, 15, MAXP, MAXP])
         c = dict(lines=L, ncal=ncal, names=names, scs=scs, deleted=deleted, fp=fp, dp=dp)
